@@ -45,5 +45,5 @@ PY
   exit $?
 fi
 cd /verif
-VERIF_EXTRA_OVERLAY="$OV" VERIF_ROOT="$W/root" VERIF_BINDIR="$W/bin" ./run "$WHAT" "$TIER" | grep -v "^  what" | cut -c1-400 | tail -6
+VERIF_EXTRA_OVERLAY="$OV" VERIF_ROOT="$W/root" VERIF_BINDIR="$W/bin" ./run "$WHAT" "$TIER" | cut -c1-260 | tail -12
 exit ${PIPESTATUS[0]}
